@@ -21,4 +21,6 @@ PairFails(o) ==
   \cup (IF o.cont1 = ShiftRuns(o.cont0, o.by) THEN {} ELSE {"contains_not_shifted"})
   \cup (IF o.next0 = <<>> \/ o.next1 = <<o.next0[1] + o.by[1], o.next0[2] + o.by[2]>> THEN {} ELSE {"next_position_not_shifted"})
   \cup (IF o.poly = 0 \/ o.map2 = ShiftCRuns(o.map0, o.by) THEN {} ELSE {"moved_vertices_map_not_shifted"})
+  \* the styled object moved with Styled::translate / translate_mut (for other drawables map3 = map1)
+  \cup (IF o.map3 = ShiftCRuns(o.map0, o.by) THEN {} ELSE {"translated_styled_object_map_not_shifted"})
 =============================================================================
